@@ -1995,3 +1995,116 @@ let rec replay g act stack inp shifted = function
                            (skipn m stack1)) (skipn n0 inp) k rest
                     else None
              | None -> None)
+
+type step =
+| SLex
+| SSyntax
+| SVisit
+| SBuild
+| SConst
+| SUnion
+| STable
+| SState
+| SReduce
+| STranslate
+| SCreate
+| SWrite
+
+(** val step_eqb : step -> step -> bool **)
+
+let step_eqb a b =
+  match a with
+  | SLex -> (match b with
+             | SLex -> true
+             | _ -> false)
+  | SSyntax -> (match b with
+                | SSyntax -> true
+                | _ -> false)
+  | SVisit -> (match b with
+               | SVisit -> true
+               | _ -> false)
+  | SBuild -> (match b with
+               | SBuild -> true
+               | _ -> false)
+  | SConst -> (match b with
+               | SConst -> true
+               | _ -> false)
+  | SUnion -> (match b with
+               | SUnion -> true
+               | _ -> false)
+  | STable -> (match b with
+               | STable -> true
+               | _ -> false)
+  | SState -> (match b with
+               | SState -> true
+               | _ -> false)
+  | SReduce -> (match b with
+                | SReduce -> true
+                | _ -> false)
+  | STranslate -> (match b with
+                   | STranslate -> true
+                   | _ -> false)
+  | SCreate -> (match b with
+                | SCreate -> true
+                | _ -> false)
+  | SWrite -> (match b with
+               | SWrite -> true
+               | _ -> false)
+
+(** val gen_steps : step list **)
+
+let gen_steps =
+  SLex :: (SSyntax :: (SVisit :: (SBuild :: (SConst :: (SUnion :: (STable :: (SState :: (SReduce :: (STranslate :: (SCreate :: (SWrite :: [])))))))))))
+
+type ('content, 'path) fs = 'path -> 'content option
+
+(** val upd0 :
+    ('a2 -> 'a2 -> bool) -> ('a1, 'a2) fs -> 'a2 -> 'a1 option -> ('a1, 'a2)
+    fs **)
+
+let upd0 path_eqb f p c q =
+  if path_eqb q p then c else f q
+
+type outcome =
+| Success
+| Failed of step
+
+(** val run_steps :
+    ('a2 -> 'a2 -> bool) -> step list -> (step -> bool) -> ('a1, 'a2) fs ->
+    'a2 -> 'a1 -> 'a1 -> ('a1, 'a2) fs * outcome **)
+
+let rec run_steps path_eqb steps fails f out empty text =
+  match steps with
+  | [] -> (f, Success)
+  | s :: rest ->
+    if fails s
+    then (f, (Failed s))
+    else let f' =
+           match s with
+           | SCreate -> upd0 path_eqb f out (Some empty)
+           | SWrite -> upd0 path_eqb f out (Some text)
+           | _ -> f
+         in
+         run_steps path_eqb rest fails f' out empty text
+
+(** val run_gen :
+    ('a2 -> 'a2 -> bool) -> (step -> bool) -> ('a1, 'a2) fs -> 'a2 -> 'a1 ->
+    'a1 -> ('a1, 'a2) fs * outcome **)
+
+let run_gen path_eqb =
+  run_steps path_eqb gen_steps
+
+type tagc =
+| Old
+| Empty
+| New
+
+(** val predict : step option -> tagc option **)
+
+let predict failing =
+  let fails = fun s ->
+    match failing with
+    | Some x -> step_eqb s x
+    | None -> false
+  in
+  fst (run_gen Nat.eqb fails (fun _ -> Some Old) O Empty New) O
